@@ -144,17 +144,21 @@ def mutate_case(rng, case):
 
 
 CLAIMED = True
-LEVEL_TEXT = ("Theorems (all circuits, all lists): the four checkers check_shape, check_cover, check_topo, check_independent are sound "
-              "for the clauses of the property stated over paths of the fan-in-limited circuit (C17_checkers_sound: check_all L sgs = true "
-              "-> sg_spec L sgs), and for the mirrored model the construction lemmas hold (every supergate is a restriction of the limited "
-              "circuit: blackbox-free, exactly one output, types kept, fan-in a subset of the fan-in in L; the order clause for the model's own list). That the construction always "
-              "passes the checkers (dominator-tree argument) is NOT proved (C17_full stays a Definition): per run the clauses are decided by "
-              "the verified checkers on the list the implementation returned, i.e. translation validation. The super-circuit clause is "
-              "oracle-level: after fill_blackbox of every supergate the circuit is compared with the original on all input valuations. "
-              "The constants of the source (limit 2, the two dominator-tree thresholds, the output guard, the name pieces) are regenerated "
-              "on every run by a fail-closed translator plug-in that also compares the surrounding statements; C17_tables_ok is the "
-              "obligation on them.")
-LEVEL_NOTE = ("Trusted: Coq kernel + vm_compute, std++, gen/plugins/supergates.py (statement shapes), harness canonicalisation and the recorded limit_fanin(c, 2) result (made by a second "
+LEVEL_TEXT = ("Theorems about the mirrored model, every fan-in-limited circuit L (closed, acyclic, <= 2 operands, constants undriven, gates "
+              "driven): C17_shape -- every returned supergate has exactly one output and its gates carry the type and the WHOLE fan-in they "
+              "have in L (dominator theory over least closed sets: an operand is a tree child or a tree sibling of its gate; a gate that does "
+              "not dominate one of its two operands has at most one tree child); C17_cover_single -- for one output every non-input node "
+              "reaching the output is a gate of a returned supergate (immediate dominators exist, the traversal reaches every tree node, the "
+              "minimal-cover filter keeps every supergate); C17_model_order_partial -- the model's list is in dependency order. "
+              "Theorems for all circuits and all lists: the four checkers are sound for the clauses stated over paths (C17_checkers_sound). "
+              "NOT proved: cover for several outputs and independence of the construction (C17_cover_full, C17_independence_full stay "
+              "Definitions); these clauses and the order of the implementation's own list are decided per run by the verified checkers on what "
+              "the implementation returned (translation validation). The super-circuit clause is oracle-level (fill_blackbox + exhaustive "
+              "evaluation). Constants of the source are regenerated on every run by a fail-closed plug-in (C17_tables_ok).")
+LEVEL_NOTE = ("The model's searches and queues run on fuel and their results are certificate-checked inside the model (closure of every "
+              "searched set, closure/route/depth of every grown set, distinct roots, frontier exhausted); the model has no value (OutOfFuel) if a "
+              "check fails, which the correspondence run shows never happens; the proofs use only the checked facts and the leastness of the "
+              "searched sets. Trusted: Coq kernel + vm_compute, std++, gen/plugins/supergates.py (statement shapes), harness canonicalisation and the recorded limit_fanin(c, 2) result (made by a second "
               "call in the same process; plausibility-checked in Coq: interface, bound 2, identity when nothing exceeds the bound). "
               "networkx.immediate_dominators is external: the model replaces it by the definition of dominance (unreachable from the output "
               "once the dominator is removed) and the tie is the set comparison of the results. Base/Api.v fill_blackbox/add_blackbox are the "
